@@ -137,7 +137,7 @@ class StatType(Enum):
                 pd.Series(ser.iloc[len(ser) // 2])).squeeze(0)
 
         elif self == StatType.EMB_DIM:
-            return len(ser[0])
+            return len(ser.iloc[0])
 
 
 _default_values = {
